@@ -83,8 +83,30 @@ def run(R):
             mask = int(f["stk"])
             bad.append((op, "part of the passphrase (%s) remains in the stack region the call used, %s bytes below the caller's frame, in a -O0 build"
                         % (", ".join(v for k, v in ENC.items() if mask & k), f.get("stkdepth")), line))
-    R.cov["stack_clause"] = {"calls": len(sops), "build": "-O0", "window": 8, "encodings": list(ENC.values())}
-    # 2. contexts erased by the final call; HMAC buffer; crypt_ra erases before growing; gensalt erases its entropy (not observable: stack)
+    # 1c. the entropy crypt_gensalt* draws itself (rbytes == NULL; the OS source is interposed with a known byte string): successful calls and
+    #     every kind of failing call of every method, three entry points; no 8-byte window of the drawn bytes may remain on the stack (-O0 build)
+    from checks import gensaltstream as GS
+    gsops = []
+    osb = bytes(R.rng.randrange(1, 256) for _ in range(64))
+    for m, pfx in GS.TAGS.items():
+        for count in [0, 1, 3, 4, 5, 6, 7, 11, 12, 31, 32, 1000, 999999999, 2**32, 2**64 - 1]:
+            for entry, sz in [("rn", 192), ("rn", R.rng.choice([3, 5, 10, 20, 30, 40, 60, 100])), ("ra", 192), ("st", 192)]:
+                gsops.append("G %s %s %d - %d %d" % (entry, hx(pfx), count, R.rng.choice([0, 0, 16, 64, -1]), sz))
+    for junk in [b"$zz$", b"*0", b"", b"$2x$"]:
+        gsops.append("G rn %s 0 - 0 192" % hx(junk))
+    gsl = R.run_impl(["OS " + hx(osb)] + gsops, variant="O0", env={"XC_STACKSCAN": "1"})[1:]
+    nfail = 0
+    for op, line in zip(gsops, gsl):
+        f = fields(line)
+        if f.get("ret") == "NULL": nfail += 1
+        if "stk" not in f and f.get("ret") is not None:
+            bad.append((op, "the gensalt stack scan did not run (harness error)", line))
+        if f.get("stk", "0") != "0":
+            bad.append((op, "the random bytes crypt_gensalt drew from the OS (OS %s) remain in the stack region the call used (%s call), in a -O0 build"
+                        % (hx(osb), "failing" if f.get("ret") == "NULL" else "successful"), line))
+    R.cov["stack_clause"] = {"calls": len(sops), "build": "-O0", "window": 8, "encodings": list(ENC.values()),
+                             "gensalt_entropy_calls": len(gsops), "gensalt_entropy_failing_calls": nfail}
+    # 2. contexts erased by the final call; HMAC buffer; crypt_ra erases before growing; gensalt's entropy: 1c above
     hops = []
     for alg in ["md4", "md5", "sha1", "sha256", "sha512", "gost256", "gost512"]:
         for n in [0, 1, 55, 56, 63, 64, 65, 111, 112, 127, 128, 129, 300]:
